@@ -105,11 +105,33 @@ theorem mem_scale {x : K} {a : Bounds (Ext K)} (c : K) (hx : Mem x a) : Mem (x *
       a_mul, mem_iff, Bool.false_eq_true, if_false, decide_true, if_true]
     exact ⟨LB_mul_pos hc hx.1, UB_mul_pos hc hx.2⟩
 
+theorem LB_div_pos {a : Ext K} {x d : K} (hd : 0 < d) (h : LB a x) : LB (Ext.div a (.fin d)) (x / d) := by
+  have hd' : d ≠ 0 := ne_of_gt hd
+  cases a <;> simp_all [Ext.div, Ext.sign, Ext.ofSign, sgn_pos hd]
+  exact div_le_div_of_nonneg_right h (le_of_lt hd)
+theorem UB_div_pos {a : Ext K} {x d : K} (hd : 0 < d) (h : UB a x) : UB (Ext.div a (.fin d)) (x / d) := by
+  have hd' : d ≠ 0 := ne_of_gt hd
+  cases a <;> simp_all [Ext.div, Ext.sign, Ext.ofSign, sgn_pos hd]
+  exact div_le_div_of_nonneg_right h (le_of_lt hd)
+theorem UB_div_neg {a : Ext K} {x d : K} (hd : d < 0) (h : LB a x) : UB (Ext.div a (.fin d)) (x / d) := by
+  have hd' : d ≠ 0 := ne_of_lt hd
+  cases a <;> simp_all [Ext.div, Ext.sign, Ext.ofSign, sgn_neg hd]
+  exact div_le_div_of_nonpos_of_le (le_of_lt hd) h
+theorem LB_div_neg {a : Ext K} {x d : K} (hd : d < 0) (h : UB a x) : LB (Ext.div a (.fin d)) (x / d) := by
+  have hd' : d ≠ 0 := ne_of_lt hd
+  cases a <;> simp_all [Ext.div, Ext.sign, Ext.ofSign, sgn_neg hd]
+  exact div_le_div_of_nonpos_of_le (le_of_lt hd) h
+
 theorem mem_divBy {x : K} {a : Bounds (Ext K)} (d : K) (hx : Mem x a) (hd : d ≠ 0) :
     Mem (x / d) (a.divBy (.fin d)) := by
-  have : Ext.div (.fin 1) (.fin d) = (.fin (1 / d) : Ext K) := by simp [Ext.div, hd]
-  simp only [Bounds.divBy, a_eq, a_zero, Ext.eq, ef_eq, hd, decide_false, Bool.false_eq_true, if_false, a_div, a_one, this]
-  rw [div_eq_mul_one_div]; exact mem_scale _ hx
+  rcases lt_or_gt_of_ne hd with hc | hc
+  · have h0 : ¬ (0 < d) := not_lt.2 (le_of_lt hc)
+    simp only [Bounds.divBy, a_eq, a_zero, Ext.eq, ef_eq, hd, decide_false, a_gt, Ext.lt, ef_lt, h0,
+      a_div, mem_iff, Bool.false_eq_true, if_false]
+    exact ⟨LB_div_neg hc hx.2, UB_div_neg hc hx.1⟩
+  · simp only [Bounds.divBy, a_eq, a_zero, Ext.eq, ef_eq, hd, decide_false, a_gt, Ext.lt, ef_lt, hc,
+      a_div, mem_iff, Bool.false_eq_true, if_false, decide_true, if_true]
+    exact ⟨LB_div_pos hc hx.1, UB_div_pos hc hx.2⟩
 
 theorem mem_divBy_zero {x : K} {a : Bounds (Ext K)} : Mem x (a.divBy (.fin (0 : K))) := by
   simp [Bounds.divBy, Ext.eq, mem_unbounded]
